@@ -266,6 +266,29 @@ func c13Child(raw json.RawMessage) any {
 		time.Sleep(30 * time.Millisecond)
 		t0 = time.Now()
 		closeNow()
+	case "monitor_inflight":
+		// Couchbase membership: Close() arrives while a monitor round has its per-instance reads in flight (the node
+		// answers them late, i.e. after the connections were closed)
+		held := make(chan struct{}, 16)
+		lb.c.Lock()
+		lb.c.Hook = func(en *simnodeEntry) simnodeAction {
+			if en.Cmd == cmdGet && strings.Contains(en.Key, ":instance:") && !strings.HasSuffix(en.Key, ":all") {
+				select {
+				case held <- struct{}{}:
+				default:
+				}
+				return simnodeAction{Kind: simnodeDelay, Delay: time.Duration(40+sc.SlowMs) * time.Millisecond}
+			}
+			return simnodeAction{}
+		}
+		lb.c.Unlock()
+		select {
+		case <-held:
+		case <-time.After(10 * time.Second):
+			res.Note = "HARNESS: no monitor round observed"
+		}
+		t0 = time.Now()
+		closeNow()
 	case "save_inflight_ok", "save_inflight_fail":
 		go d.Commit()
 		select {
@@ -476,7 +499,7 @@ func c13Exec(sc c13Scenario) string {
 	return ""
 }
 
-var c13States = []string{"idle", "consumer_blocked", "gate_blocked", "save_inflight_ok", "save_inflight_fail", "rebalance_closed", "rebalance_delay", "rebalance_reopen"}
+var c13States = []string{"idle", "consumer_blocked", "gate_blocked", "save_inflight_ok", "save_inflight_fail", "monitor_inflight", "rebalance_closed", "rebalance_delay", "rebalance_reopen"}
 
 func c13InKnownClass(sc c13Scenario) bool {
 	return strings.HasPrefix(sc.State, "rebalance_")
@@ -495,11 +518,14 @@ func c13Gen(rt *rapid.T) c13Scenario {
 	sc.Mitigate = rapid.IntRange(0, 3).Draw(rt, "mitigate") == 0
 	sc.DelayMs = rapid.SampledFrom([]int{40, 120, 300}).Draw(rt, "delay")
 	sc.SlowMs = rapid.SampledFrom([]int{0, 10, 60}).Draw(rt, "slow")
-	if sc.State == "gate_blocked" {
+	if sc.State == "gate_blocked" || sc.State == "monitor_inflight" {
 		sc.Mitigate = true
 	}
 	sc.OldServer = rapid.IntRange(0, 3).Draw(rt, "oldserver") == 0
 	sc.CBMember = sc.Mitigate && sc.State != "gate_blocked" && !strings.HasPrefix(sc.State, "rebalance_") && rapid.IntRange(0, 3).Draw(rt, "cbmember") > 0
+	if sc.State == "monitor_inflight" {
+		sc.CBMember = true
+	}
 	if sc.Mitigate {
 		sc.Health = false // the real client's Ping needs a management endpoint the simulated node does not offer
 		if sc.State == "rebalance_reopen" {
